@@ -83,7 +83,7 @@ VARIABLES
     emu,        \* encoderMutex holder
     hpc,        \* closure handler pc
     hmsg,       \* error being forwarded by the closure handler
-    hdrain,     \* (LateClose) closure handler keeps draining without forwarding
+    hdrain,     \* the closure handler has left its loop on ctx.Done(): a goroutine drains workDone without forwarding
     crashed,    \* "no" or the reason the plugin process died
     accepted,   \* [Runs -> Nat] work-starts accepted (step goroutine spawned)
     terminal,   \* [Runs -> Nat] terminal messages (work-done / step-fatal error) fully written
@@ -627,6 +627,22 @@ HCloseStdin ==
     /\ hpc' = IF LateClose THEN "select" ELSE "done"
     /\ UNCHANGED <<cvars, c2s, s2c, outClosed, spc, sbuf, smsg, step, beh, sigg, workq, workClosed, emu, hmsg, hdrain,
                    crashed, accepted, terminal, srvRet>>
+
+\* The server's context is cancelled (SIGTERM in a plugin process).  NOT client-driven, so outside C07's
+\* quantifier and outside ServerNext: spec/ATPServerCancel.tla adds these two actions to the environment.
+\* handleClosure leaves its loop at once - whatever is queued or arrives later is received by a goroutine
+\* that forwards nothing - and RunATPServer still waits for the read loop (the end of the input) and for
+\* the running steps before it returns.
+HCtxDone ==
+    /\ Alive /\ hpc = "select" /\ ~hdrain
+    /\ hpc' = "done" /\ hdrain' = TRUE
+    /\ UNCHANGED <<cvars, wvars, spc, sbuf, smsg, step, beh, sigg, workq, workClosed, emu, hmsg, crashed,
+                   accepted, terminal, srvRet>>
+HDrain ==
+    /\ Alive /\ hdrain /\ workq # <<>>
+    /\ workq' = Tail(workq)
+    /\ UNCHANGED <<cvars, wvars, spc, sbuf, smsg, step, beh, sigg, workClosed, emu, hpc, hmsg, hdrain, crashed,
+                   accepted, terminal, srvRet>>
 
 \* RunATPServer returns: handleClosure done and wg.Wait() passed; the process exits and the OS
 \* closes its output
